@@ -84,6 +84,23 @@ LiveBound(i, liquid) == LET nd == Nd(i) IN
   ~IsRoot(nd) /\ IsBlock(nd) => \A b \in Range(Post(nd).borrows) : BadBlocks(i, b.id, liquid) <= 2 * CeilDiv(MaxLen(i, b.id), CfgOf(nd).batch)
 C09Live(i) == LiveBound(i, TRUE)
 C09LiveAny(i) == LiveBound(i, FALSE)
+(* first generation: the same bounded response counted in RUNS of the first-generation sweep (its begin blocker is called once per Tick of a   *)
+(* first-generation behaviour): an unsafe, enabled borrow is seized within two full rounds of the cursor over the borrow list                  *)
+BadV1(liquid, cfg, S, bid) == IF liquid THEN StillBadV1Liquid(cfg, S, bid) ELSE StillBadV1(cfg, S, bid)
+RECURSIVE BadRunsV1(_, _, _)
+BadRunsV1(i, bid, liquid) ==
+  LET nd == Nd(i) IN
+  IF IsRoot(nd) \/ ~BadV1(liquid, CfgOf(nd), PostS(nd), bid) \/ ~BadV1(liquid, CfgOf(nd), PreS(nd), bid) THEN 0
+  ELSE (IF IsBlock(nd) THEN 1 ELSE 0) + BadRunsV1(nd.parent, bid, liquid)
+RECURSIVE MaxLenV1(_, _)
+MaxLenV1(i, bid) ==
+  LET nd == Nd(i) IN
+  IF IsRoot(nd) \/ ~StillBadV1(CfgOf(nd), PreS(nd), bid) THEN SweepLen(PostS(nd))
+  ELSE LET r == MaxLenV1(nd.parent, bid) IN IF SweepLen(PostS(nd)) > r THEN SweepLen(PostS(nd)) ELSE r
+LiveBoundV1(i, liquid) == LET nd == Nd(i) IN
+  ~IsRoot(nd) /\ CfgOf(nd).v1 /\ IsBlock(nd) => \A b \in Range(Post(nd).borrows) : BadRunsV1(i, b.id, liquid) <= 2 * CeilDiv(MaxLenV1(i, b.id), CfgOf(nd).batch1)
+C09LiveV1(i) == LiveBoundV1(i, TRUE)
+C09LiveV1Any(i) == LiveBoundV1(i, FALSE)
 
 (* ---------------------------------------------------------------- C10 (lend-initiated Dutch auctions) *)
 BidOk(nd) == ~IsRoot(nd) /\ nd.a = "Bid" /\ nd.res.ok /\ HasAuc(PreS(nd), nd.args.auc) /\ AucOf(PreS(nd), nd.args.auc).lend /\ AucOf(PreS(nd), nd.args.auc).dutch
@@ -265,7 +282,7 @@ ConfModel(nd) == ~IsRoot(nd) /\ Walk(nd) /\ "mok" \in DOMAIN nd.res => Act(nd, W
 ConfNames == {"Conf_" \o x : x \in Predicted}
 Formulas == <<"C08_BooksRoot", "C08_BooksLend", "C08_BooksLendHandOver", "C08_BooksLendHandOverDrop", "C08_BooksBorrow", "C08_BooksBorrowV1Msg", "C08_BooksBorrowV1BridgedClose", "C08_Ltv", "C08_LtvMismatched", "C08_LtvOpenBridged", "C08_LtvDrawBridged", "C08_PoolHeld",
               "C08_NoRelease",
-              "C09_BorrowOnlyUnsafe", "C09_BorrowEnabled", "C09_BorrowSeizeExact", "C09_BorrowCustodyMoves", "C09_BorrowLive", "C09_BorrowLiveIlliquid",
+              "C09_BorrowOnlyUnsafe", "C09_BorrowEnabled", "C09_BorrowSeizeExact", "C09_BorrowCustodyMoves", "C09_BorrowLive", "C09_BorrowLiveIlliquid", "C09_BorrowLive_V1", "C09_BorrowLiveIlliquid_V1",
               "C10_LendPaidWithinTarget", "C10_LendReceivedWithinSeized", "C10_LendPostedPrice", "C10_LendRemaining", "C10_LendCustody",
               "C10_LendPriceFalls", "C10_LendPriceInBand", "C10_LendStartPrice", "C10_LendProceeds", "C10_LendProceedsEmode",
               "C10_LendBridgedReturned", "C10_LendOwnerGetsRest", "C10_LendRecords",
@@ -296,6 +313,8 @@ Holds(f, i) ==
     [] f = "C09_BorrowCustodyMoves" -> C09Custody(nd)
     [] f = "C09_BorrowLive" -> C09Live(i)
     [] f = "C09_BorrowLiveIlliquid" -> C09LiveAny(i)
+    [] f = "C09_BorrowLive_V1" -> C09LiveV1(i)
+    [] f = "C09_BorrowLiveIlliquid_V1" -> C09LiveV1Any(i)
     [] f = "C10_LendPaidWithinTarget" -> C10PaidWithin(nd)
     [] f = "C10_LendReceivedWithinSeized" -> C10RecvWithin(nd)
     [] f = "C10_LendPostedPrice" -> C10Posted(nd)
@@ -397,6 +416,10 @@ Stats == PrintT(<<"STATS", [nodes |-> NLog,
            v1Overwrites |-> Count(LAMBDA nd : Judged(nd) /\ IsV1(nd) /\ OverwritesVault(PreS(nd), PostS(nd))),
            v1NotJudgedAfterOverwrite |-> Cardinality({i \in 1..NLog : ~Sane(i)}),
            v1BridgedCloses |-> Count(BridgedClose1),
+           v1LongWaits |-> Cardinality({i \in 1..NLog : ~IsRoot(Nd(i)) /\ CfgOf(Nd(i)).v1 /\ IsBlock(Nd(i)) /\ \E b \in Range(Post(Nd(i)).borrows) : BadRunsV1(i, b.id, TRUE) >= 2}),
+           v1SmallBatchRuns |-> Count(LAMBDA nd : ~IsRoot(nd) /\ CfgOf(nd).v1 /\ IsBlock(nd) /\ SweepLen(PreS(nd)) > CfgOf(nd).batch1),
+           v1CursorWraps |-> Count(LAMBDA nd : ~IsRoot(nd) /\ CfgOf(nd).v1 /\ IsBlock(nd) /\ SweepLen(PreS(nd)) > CfgOf(nd).batch1 /\ PostS(nd).x.off1 < PreS(nd).x.off1),
+           v1LateSeizures |-> Count(LAMBDA nd : Judged(nd) /\ nd.a = "Tick" /\ SweepLen(PreS(nd)) > CfgOf(nd).batch1 /\ \E b \in SeizedV1(PreS(nd), PostS(nd)) : TRUE),
            v1Bids |-> Count(BidOk1),
            v1PartialBids |-> Count(LAMBDA nd : BidOk1(nd) /\ ~Closing1(nd)),
            v1ClosingBids |-> Count(Closing1),
